@@ -54,6 +54,7 @@ def run(prog, run):
     r4(prog, run)
     r5(prog, run)
     r6(prog, run)
+    r7(prog, run)
 
 
 def r1(prog, run):
@@ -388,3 +389,48 @@ def r6(prog, run):
         run.ok(rid, rc.loc(), 'resetCache: every entry reported with an error, then the map is cleared')
     else:
         run.violation(rid, 'resetCache#pairing', rc.loc(), 'resetCache drops entries without reporting them (or reports without clearing)')
+
+
+def r7(prog, run):
+    rid = run.rule('C09.R7', 'the h of <resumed/> takes effect although stream management is not yet re-enabled at that moment; every element the session '
+                             'dispatcher consumes has first passed the inbound counter', floor=4)
+    # (a) <resumed h/> is applied before enableStreamManagement(false) (C09.R3), i.e. while m_enabled is still false (cleared by onSessionClosed)
+    sa = prog.fn(SAM + '::setAcknowledgedSequenceNumber')
+    sinks = [i for i, n in sa.calls() if sa.cname(n).endswith('::erase') and _obj_field(sa, n) == UNACK]
+    sinks += [i for i, n in sa.calls() if sa.cname(n).endswith('::reportFinished')]
+    if not sinks:
+        raise AnalysisBroken('C09.R7: erase/reportFinished not found in setAcknowledgedSequenceNumber')
+    ev = cfgx.Evaluator(sa, {'field:' + ENABLED: False})
+    res = cfgx.sink_reachability(sa, lambda f, c, st: ev.ev(c, st), sinks)
+    run.instance(rid)
+    if all(res[x] is None for x in sinks):
+        run.violation(rid, 'setAcknowledgedSequenceNumber#ignored-when-disabled', sa.loc(),
+                      'setAcknowledgedSequenceNumber does nothing while m_enabled is false, but onResumed applies resumed.h before re-enabling stream management: '
+                      'the stanzas the server confirmed in <resumed h=…/> are resent and never reported as acknowledged')
+    else:
+        run.ok(rid, sa.loc(), 'the acknowledged prefix is dropped regardless of m_enabled')
+    closed = prog.fn(SAM + '::onSessionClosed')
+    run.instance(rid)
+    if any(closed.nodes[closed.skip(n['l'])].get('f') == ENABLED and closed.const_value(n['r']) == ('bool', False) for _, n in closed.all_nodes('assign')):
+        run.ok(rid, closed.loc(), 'onSessionClosed clears m_enabled (so it is false when <resumed/> arrives)')
+    else:
+        run.violation(rid, 'StreamAckManager::onSessionClosed#enabled', closed.loc(), 'a closed session leaves stream management marked enabled')
+    # (b) the inbound counter sees every element before any other consumer in the established-session dispatcher
+    he = prog.fn('QXmppOutgoingClient::handleElement')
+    cnt = [i for i, n in he.calls(SAM + '::handleStanza')]
+    if not cnt:
+        run.instance(rid)
+        run.violation(rid, 'QXmppOutgoingClient::handleElement#uncounted', he.loc(), 'received elements are not passed to the stream management counter')
+        return
+    consumers = [(i, he.cname(n)) for i, n in he.calls() if he.cname(n) in ('QXmpp::Private::OutgoingIqManager::handleStanza', 'QXmppOutgoingClient::elementReceived',
+                                                                            'QXmppOutgoingClient::handleStanza', 'QXmppOutgoingClient::handleStreamFeatures')]
+    if len(consumers) < 3:
+        raise AnalysisBroken('C09.R7: consumers of the received element not found in QXmppOutgoingClient::handleElement')
+    for i, cn in consumers:
+        run.instance(rid)
+        if he.node_dominates(cnt[0], i):
+            run.ok(rid, he.loc(i), '%s runs after the inbound counter' % cn.split('::', 1)[-1], nontrivial=False)
+        else:
+            run.violation(rid, 'QXmppOutgoingClient::handleElement#uncounted:%s' % cn.split('::')[-2], he.loc(i),
+                          '%s can consume a received stanza that never reached StreamAckManager::handleStanza: the h reported in <a/> and <resume/> falls behind'
+                          % cn.split('::', 1)[-1])
